@@ -18,7 +18,7 @@ THEOREMS = ['C12_product_is_canonical_order', 'C12_fixed_sum_iterator', 'C12_fix
             'C12_get_significant_inputs_of', 'C12_find_negations_to_make_symmetric',
             'C12_define_python_model', 'C12_define_truth_table_model',
             'C12_canonical_index_to_input', 'C12_from_int_unary_func', 'C12_from_int_binary_func',
-            'C12_example_represented']
+            'C12_memoised_circuit_queries', 'C12_example_represented']
 PARTIAL = {}
 LEVEL_TEXT = ('for every Boolean function f with arities n, m >= 1 and every query of the protocol with index arguments '
               'inside the arities, the modelled code of Circuit, TruthTable and PyFunction (three different algorithms '
@@ -55,17 +55,44 @@ ASSUMPTIONS = ['"monotone" is formalised as the documented notion of the protoco
                'the netlist semantics)']
 
 
-def _impl(case):
-    return fc.run_impl(case)
+def _process(case):
+    """one case in a worker: run the implementation, print the Coq term, evaluate the direct oracle.
+    Only small results travel back (the observations of 65 536 functions do not fit in memory)."""
+    out = {'term': None, 'term_error': None, 'stats': []}
+    impl = fc.run_impl(case)
+    try:
+        out['term'] = fc.case_term(case, impl)
+    except Exception as e:  # noqa: BLE001
+        out['term_error'] = str(e)[:200]
+    if case['kind'] == 'func' and isinstance(impl, dict) and 'answers' in impl:
+        st = out['stats']
+        for cls in fc.CLASSES:
+            a = impl['answers'][cls]
+            if isinstance(a, tuple):
+                st.append(('constructor_errors', f'{cls}:{a[1]}', 1))
+                continue
+            errs = {}
+            for x in a:
+                if x[0] == 'err':
+                    errs[x[1]] = errs.get(x[1], 0) + 1
+            st += [('error_kinds', f'{cls}:{k}', v) for k, v in errs.items()]
+        st.append(('queries_per_class', len(impl['queries']), 1))
+        if impl['circuit']:
+            st.append(('circuit_gates', len(impl['circuit']['gates']) // 4 * 4, 1))
+    try:
+        out['verdict'] = fc.oracle(case)
+    except Exception as e:  # noqa: BLE001
+        out['verdict'] = 'oracle crashed: ' + repr(e)[:300]
+    return out
 
 
 def run_all(cases):
-    """implementation observations for every case (16 worker processes; the result does not depend on
-    the scheduling: each case is run on its own freshly built objects)"""
+    """16 worker processes; the result does not depend on the scheduling: each case is run on its own
+    freshly built objects"""
     if len(cases) < 200:
-        return [fc.run_impl(c) for c in cases]
+        return [_process(c) for c in cases]
     with multiprocessing.get_context('fork').Pool(16) as pool:
-        return pool.map(_impl, cases, chunksize=32)
+        return pool.map(_process, cases, chunksize=64)
 
 
 def build_cases(ctx):
@@ -77,6 +104,9 @@ def build_cases(ctx):
             cases.append(fc.func_case(n, m, [[rng.random() < 0.5 for _ in range(2 ** n)] for _ in range(m)]))
     cases += fc.model_cases(rng, ctx.n(140, 1400))
     return cases
+
+
+_VERDICTS = {}
 
 
 def correspondence(ctx, model_ok):
@@ -95,32 +125,23 @@ def correspondence(ctx, model_ok):
               'non-trivial = every case; distinct = hash of the case')
     cases = build_cases(ctx)
     t0 = time.time()
-    impls = run_all(cases)
-    r.notes.append(f'implementation runs: {time.time() - t0:.1f}s')
+    results = run_all(cases)
+    r.notes.append(f'implementation runs + direct oracle: {time.time() - t0:.1f}s')
     terms, kept = [], []
-    for case, impl in zip(cases, impls):
+    for case, res in zip(cases, results):
+        _VERDICTS[fc.case_key(case)] = res['verdict']
         if case['kind'] == 'func':
-            fc._IMPL_CACHE[fc.case_key(case)] = impl
             r.count('function_shape', f'n={case["n"]},m={case["m"]}')
-            if isinstance(impl, dict) and 'answers' in impl:
-                for cls in fc.CLASSES:
-                    a = impl['answers'][cls]
-                    if isinstance(a, tuple):
-                        r.count('constructor_errors', f'{cls}:{a[1]}')
-                        continue
-                    for q, x in zip(impl['queries'], a):
-                        r.count('queries', q[0])
-                        if x[0] == 'err':
-                            r.count('error_kinds', f'{cls}:{x[1]}')
-                if impl['circuit']:
-                    r.count('circuit_gates', len(impl['circuit']['gates']) // 4 * 4)
+        for name, key, k in res['stats']:
+            r.count(name, key, k)
         r.count('case_kind', case['kind'])
         r.add_case(case, True)
-        try:
-            terms.append(fc.case_term(case, impl))
+        if res['term'] is None:
+            r.disagreements.append({'name': 'implementation run not expressible: ' + str(res['term_error']),
+                                    'case': case})
+        else:
+            terms.append(res['term'])
             kept.append(case)
-        except Exception as e:  # noqa: BLE001
-            r.disagreements.append({'name': 'implementation run not expressible: ' + str(e)[:200], 'case': case})
     r._cases = cases
     if model_ok:
         t0 = time.time()
@@ -137,6 +158,10 @@ def oracle_cases(ctx, corr):
 
 
 def oracle(case):
+    """the property itself on the implementation; verdicts computed by this run's workers are reused"""
+    key = fc.case_key(case)
+    if key in _VERDICTS:
+        return _VERDICTS[key]
     return fc.oracle(case)
 
 
